@@ -751,7 +751,7 @@ def _ref_sat16(x):
     return z3.If(x < _c(I16MIN), _c(I16MIN), z3.If(x > _c(I16MAX), _c(I16MAX), x))
 
 
-def hardswish_table(V, dtype, code, relu_shift, out_shift, zptype, zp_in_value, abstract_mul=False):
+def hardswish_table(V, dtype, code, relu_shift, out_shift, zptype, zp_in_value, abstract_mul=False, fixed=None):
     """convert_hardswish_to_lut: one table entry == the TFLite(-Micro) reference HardSwish recipe on int16 fixed point
     (reference_ops.h: hires input = (x - zp) << 7; SaturatingRoundingDoublingHighMul with the int16 output multiplier; reluish value
     through SaturatingLeftShift / SRDHM / RoundingDivideByPOT; (v + 2^15) >> 1; SaturatingDoublingHighMul; RoundingDivideByPOT; + zp;
@@ -768,18 +768,26 @@ def hardswish_table(V, dtype, code, relu_shift, out_shift, zptype, zp_in_value, 
     npint.MUL_BOUND = 1 << 30
     try:
         with _width(96):
-            return _hardswish_table(V, go, m, DataType, Op, dtype, code, relu_shift, out_shift, zptype, zp_in_value)
+            return _hardswish_table(V, go, m, DataType, Op, dtype, code, relu_shift, out_shift, zptype, zp_in_value, fixed)
     finally:
         npint.ABSTRACT_MUL = False
         npint.MUL_BOUND = None
 
 
-def _hardswish_table(V, go, m, DataType, Op, dtype, code, relu_shift, out_shift, zptype, zp_in_value):
+def _hardswish_table(V, go, m, DataType, Op, dtype, code, relu_shift, out_shift, zptype, zp_in_value, fixed=None):
     if True:
         qmin, qmax = (0, 255) if dtype == "uint8" else (-128, 127)
         with core.shims(*(_shims() + ((go, {"min": _smin, "max": _smax, "int": npint.sint_shim, "np": npint.SNUMPY}),))):
-            out_scale, w_os = _operand(V, "out_scale", "pyint", 1 << 30, (1 << 31) - 1)
-            relu_scale, w_rs = _operand(V, "relu_scale", "pyint", 1 << 30, (1 << 31) - 1)
+            # `fixed` = ("out"|"relu", multiplier): that Q31 multiplier is concrete, the other symbolic - the entry's one 16x16 product of two
+            # symbolic factors (reluish value x pre-shifted input) then has a concrete factor, which is what makes unsaturated entries decidable
+            if fixed is not None and fixed[0] == "out":
+                out_scale, w_os = int(fixed[1]), _c(int(fixed[1]))
+            else:
+                out_scale, w_os = _operand(V, "out_scale", "pyint", 1 << 30, (1 << 31) - 1)
+            if fixed is not None and fixed[0] == "relu":
+                relu_scale, w_rs = int(fixed[1]), _c(int(fixed[1]))
+            else:
+                relu_scale, w_rs = _operand(V, "relu_scale", "pyint", 1 << 30, (1 << 31) - 1)
             # the input zero point is enumerated: (code - zero point) is then concrete and every product has at most one 16x16 symbolic
             # multiplier to bit-blast (exact, no abstraction); multipliers and the output zero point stay symbolic
             import numpy as _np
@@ -849,11 +857,68 @@ def _hardswish_table(V, go, m, DataType, Op, dtype, code, relu_shift, out_shift,
         return [("hard-swish table[%d] == TFLite reference recipe" % code, npint.wide(vals[0]) == res)]
 
 
+def _shash(x):
+    """model of the built-in hash() for the keys the repository hashes itself (ints and tuples of ints): CPython's int hash is the value
+    (for |x| < 2^61 - 1) except hash(-1) == -2; the tuple mixing is modelled as collision-free (an injective combination of the element
+    hashes) - optimistic: a violation found under this model is a real collision of element hashes and replays on the real hash()"""
+    import builtins
+
+    def h(e):
+        if isinstance(e, SInt):
+            return z3.If(e.e == -1, z3.IntVal(-2), e.e)
+        return z3.IntVal(builtins.hash(e))
+
+    if isinstance(x, SInt):
+        return SInt(h(x))
+    if isinstance(x, tuple) and any(isinstance(e, SInt) for e in x):
+        # concrete elements (with the positions of the symbolic ones) go through the real hash; each symbolic element gets its own 64-bit lane
+        acc = z3.IntVal(builtins.hash(tuple(("sym", i) if isinstance(e, SInt) else e for i, e in enumerate(x))) % (1 << 64))
+        k = 0
+        for e in x:
+            if isinstance(e, SInt):
+                k += 1
+                acc = acc + h(e) * (1 << (64 * k))
+        return SInt(acc)
+    return builtins.hash(x)
+
+
+def lut_identity(V, n_sym):
+    """create_lut_tensor twice: the two lookup tables share an equivalence id (= one address in the constants region, one copy of the bytes)
+    exactly when their 256 values are equal; n_sym entries of each table are symbolic int8/uint8 codes, the rest equal constants"""
+    import ethosu.vela.lut as lut
+    import ethosu.vela.tensor as tensor
+    from ethosu.vela.data_type import DataType
+
+    for obj in list(vars(tensor).values()):
+        if callable(getattr(obj, "cache_clear", None)):
+            obj.cache_clear()  # value-keyed caches are module state: every execution starts from an empty one
+    pos = [3, 200, 255][:n_sym]
+    ta, tb = list(range(-128, 128)), list(range(-128, 128))
+    eqs = []
+    for i, p_ in enumerate(pos):
+        ta[p_] = V.int("a%d" % i, -128, 127)
+        tb[p_] = V.int("b%d" % i, -128, 127)
+        eqs.append(L(ta[p_]) == L(tb[p_]))
+    saved = lut.create_const_tensor
+    lut.create_const_tensor = lambda name, shape, dtype, values, purpose=None, **k: _Obj(name=name, values=list(values), equivalence_id=None)
+    try:
+        with core.shims((tensor, {"hash": _shash})):
+            a_ = lut.create_lut_tensor("a", ta, DataType.int8)
+            b_ = lut.create_lut_tensor("b", tb, DataType.int8)
+    finally:
+        lut.create_const_tensor = saved
+    same = a_.equivalence_id == b_.equivalence_id
+    return [("two lookup tables share an equivalence id (one copy in the constants region) only if all their values are equal",
+             z3.Implies(z3.BoolVal(bool(same)), z3.And(*eqs))),
+            ("equal tables share their equivalence id", z3.Implies(z3.And(*eqs), z3.BoolVal(bool(same))))]
+
+
 CAPS = {"quick": {}, "thorough": {}}
 RLIMIT = 2_000_000_000  # the 32x32->64 multiplier equivalences need far more solver resource than the engine default
 
 FUNCS = {"kernel": kernel, "mbqm": mbqm, "exp_interval": exp_interval, "exp_neg": exp_neg, "exp_neg_struct": exp_neg_struct,
-         "lrelu_table": lrelu_table, "quantize_fold": quantize_fold, "hardswish_table": hardswish_table, "quantize_scale": quantize_scale, "tanh_fn": tanh_fn}
+         "lrelu_table": lrelu_table, "quantize_fold": quantize_fold, "hardswish_table": hardswish_table, "quantize_scale": quantize_scale, "tanh_fn": tanh_fn,
+         "lut_identity": lut_identity}
 
 
 def instances(tier, seed):
@@ -910,17 +975,36 @@ def instances(tier, seed):
                         for code in codes:  # one table entry per instance: the per-entry body forks on rounding decisions
                             out.append(dict(key="lrelu_table/%s/zp%d/sh%d_%d/%s/%s/code%d" % (dtype, zp_in, ish, ash, "prelu" if scaled else "plain", zptype, code),
                                             fn="lrelu_table", params=dict(dtype=dtype, zp_in=zp_in, id_shift=ish, al_shift=ash, scaled=scaled, codes=[code], zptype=zptype)))
+    SQRT2_Q30 = 1518500250  # a multiplier in the middle of [2^30, 2^31)
     for dtype in ("int8", "uint8"):
         qmin = 0 if dtype == "uint8" else -128
+        # (a) both multipliers symbolic: decidable where the entry saturates or the shifts are small (out_shift <= 34)
         for relu_shift in ((27, 33) if quick else (25, 27, 29, 31, 32, 33, 35)):
-            for out_shift in ((31, 34) if quick else (30, 31, 32, 34, 37)):
+            for out_shift in ((31, 34) if quick else (30, 31, 32, 34)):
                 for code in ((qmin + 127 + seed % 3, qmin + 255) if quick else range(qmin, qmin + 256, 17)):
                     for zptype in ("int64", "pyint"):
                         for zpi in ((qmin + 125,) if quick else (qmin, qmin + 125, qmin + 255)):
                             out.append(dict(key="hardswish_table/%s/r%d_o%d/%s/zp%d/code%d" % (dtype, relu_shift, out_shift, zptype, zpi, code), fn="hardswish_table",
                                             params=dict(dtype=dtype, code=code, relu_shift=relu_shift, out_shift=out_shift, zptype=zptype, zp_in_value=zpi, abstract_mul=False), weight=30))
+        # (b) one multiplier concrete, the other symbolic: the realistic, unsaturated regime (out_shift 34..37: ifm_scale/128/ofm_scale)
+        fixes = [("out", SQRT2_Q30, ("int64", "pyint")), ("relu", SQRT2_Q30, ("pyint",)), ("out", 1 << 30, ("pyint",))]
+        if not quick:
+            fixes += [("relu", 1 << 30, ("pyint",)), ("out", (1 << 31) - 1, ("pyint",)), ("relu", (1 << 31) - 1, ("pyint",)), ("out", 1234567891, ("int64",)),
+                      ("relu", 1987654321, ("int64",))]
+        for relu_shift in ((27, 33) if quick else (25, 27, 29, 31, 32, 33, 35)):
+            for out_shift in ((34, 37) if quick else (32, 34, 36, 37)):
+                # quick: inputs (code - zero point) of -60, +3..5, +40, +130 with the enumerated input zero point qmin + 125
+                for code in ((qmin + 65, qmin + 128 + seed % 3, qmin + 165, qmin + 255) if quick else range(qmin, qmin + 256, 5)):
+                    for which, mult, zptypes in fixes:
+                        for zptype in zptypes:
+                            zpi = qmin + 125
+                            out.append(dict(key="hardswish_table/%s/r%d_o%d/%s/zp%d/code%d/%s=%d" % (dtype, relu_shift, out_shift, zptype, zpi, code, which, mult),
+                                            fn="hardswish_table", params=dict(dtype=dtype, code=code, relu_shift=relu_shift, out_shift=out_shift, zptype=zptype,
+                                                                              zp_in_value=zpi, abstract_mul=False, fixed=[which, mult]), weight=30))
     for dtype in ("int8", "int16"):
         out.append(dict(key="quantize_scale/%s" % dtype, fn="quantize_scale", params=dict(dtype=dtype)))
+    for n_sym in (1, 2, 3):
+        out.append(dict(key="lut_identity/%d" % n_sym, fn="lut_identity", params=dict(n_sym=n_sym)))
     for which in ("tanh", "sigmoid"):
         out.append(dict(key="tanh_fn/%s" % which, fn="tanh_fn", params=dict(which=which)))
     for dtype in ("int8", "int16"):
